@@ -1775,6 +1775,14 @@ func (w *Walker) canonAlloc(e ast.Expr, st *pstate, c *ctl) string {
 	}
 	switch y := x.(type) {
 	case *ast.CompositeLit:
+		// a struct value (not &T{}, not a map/slice) has no identity: two equal literals are equal values
+		if _, isAddr := ast.Unparen(e).(*ast.UnaryExpr); !isAddr {
+			if t := c.info.TypeOf(y); t != nil {
+				if _, isStruct := t.Underlying().(*types.Struct); isStruct {
+					return s
+				}
+			}
+		}
 		st.count["alloc"]++
 		return fmt.Sprintf("%s@%d", s, st.count["alloc"])
 	case *ast.CallExpr:
